@@ -65,3 +65,136 @@ PROPS["C15"] = dict(
         H("c15_scalar_assign", encodes=["AddAssign<u16>/<i16>", "SubAssign<u16>/<i16> for Word"], bound="full width"),
     ],
 )
+
+
+_K_ENC = ["sim::Simulator::step_in", "Simulator::step", "Simulator::_step_inner", "Simulator::handle_interrupt", "Simulator::call_interrupt",
+          "Simulator::call_subroutine", "Simulator::read_mem", "Simulator::write_mem", "Simulator::set_pc", "Simulator::offset_pc",
+          "Simulator::set_cc", "Simulator::default_mem_ctx", "Simulator::in_alloca", "Simulator::prefetch_pc", "PSR::*",
+          "SimInstr::decode", "Word ops", "FrameStack::{push_frame,pop_frame}", "MemArray Index/IndexMut"]
+_K_STUBS = ["S-mem: <MemArray as Index/IndexMut<u16>> -> lazily materialised associative memory of <= 8 cells with arbitrary pre-drawn contents (exact for steps touching <= 8 distinct addresses; asserted)",
+            "S-hash: DefaultHasher::{write,finish} -> constant hash 0 (a legal hash function)", "S-swap: mem::swap by moves",
+            "S-dev: <DeviceHandler as ExternalDevice>::{io_read,io_write,poll_interrupt} -> scripted arbitrary answers + call log",
+            "S-obs: AccessObserver::update_mem_accesses -> fixed-size log", "S-rand: RandomState::new -> fixed keys"]
+# CBMC's pointer-validity instrumentation (for unsafe code) is 90% of the formula and is not what these
+# properties are about; Rust-level panics (overflow, bounds, unwrap, unreachable) stay encoded as assertions.
+_K_ARGS = ["-Z", "unstable-options", "--no-memory-safety-checks", "--no-assertion-reach-checks"]
+_C08_CLASSES = ["op0_br", "op1_add", "op2_ld", "op3_st", "op4_jsr", "op5_and", "op6_ldr", "op7_str", "op8_rti", "op9_not",
+                "op10_ldi", "op11_sti", "op12_jmp", "op13_res", "op14_lea", "op15_trap", "irq", "iofetch", "g_alu", "g_mem", "g_sys", "all"]
+PROPS["C08"] = dict(
+    level="model_checking",
+    jobs=5,
+    claim="One step_in from an ARBITRARY machine state (all 65536 memory words, registers with init masks, PC, raw PSR, saved SP, frame depth, flags real_traps/ignore_privilege symbolic; strict off) equals the independent ISA model on result kind, R0-R7, PC, PSR, saved SP, prefetch flag, instruction counter, frame depth, every memory cell and the ordered device calls. Because the pre-state is unconstrained this is the induction step for executions of any length.",
+    note="Device hub and observer container abstracted by stubs S-dev/S-obs (their own properties: C32-C34, C28); internal-register mappings empty; interrupt vectors x00-x02 excluded; ISA model kani/src/spec/isa.rs is the oracle.",
+    design_ref="DESIGN.md section 3 (C08)",
+    bounds="exactly one step_in per harness; 18 harness classes (16 opcodes with the 12 operand bits symbolic, pending interrupt, fetch from the I/O page); unwind 9; strict = false; debug_frames = false",
+    outside="multi-step runs (by induction only), strict mode (C14), devices' internals (C32-C34), ireg mappings (C32), instructions_run wrap",
+    assumptions=_K_STUBS + ["frame depth < 2^64-1", "interrupt vectors >= x03", "CBMC pointer checks off (--no-memory-safety-checks): memory safety of std's unsafe code is trusted"],
+    harnesses=[H("c08_all", stubbing=True, kani_args=_K_ARGS, encodes=_K_ENC, heavy=True, timeout=1800,
+                 bound="one step; fetched word, pending interrupt and PC (incl. the I/O page) all symbolic")] +
+              [H("c08_" + c, tier="thorough", stubbing=True, kani_args=_K_ARGS, encodes=_K_ENC, bound="one step, class " + c, timeout=2400)
+               for c in _C08_CLASSES if c != "all"],
+)
+
+PROPS["PROBE"] = dict(level="model_checking", claim="", note="", jobs=3,
+    harnesses=[H("probe_build", stubbing=True), H("probe_model", stubbing=True), H("probe_real", stubbing=True)])
+
+PROPS["C34"] = dict(
+    level="model_checking", jobs=3,
+    claim="(a) one poll_interrupt from an arbitrary timer state (remaining time, range bounds and inclusiveness over full u32, enabled flag, priority) behaves as the countdown contract says; (b) over 10 consecutive polls with ranges 1 <= lo <= hi <= 3 (and exact counts) every gap between consecutive interrupts lies in the range, the first interrupt comes within max+1 polls of enabling/reset and the timer keeps firing; (c) a disabled timer never fires and keeps its countdown.",
+    note="S-timer: the private TimerDevice::try_generate_time (rand::Rng::random_range over ChaCha12) is replaced by 'any value inside the configured range'. Seed determinism ('same seed gives the same sequence') and ranges containing 0 are outside the claim; the interrupt vector is not observable at device level (checked through C08's interrupt class).",
+    design_ref="DESIGN.md section 5 (C34)",
+    bounds="(a) one poll, full 32-bit width; (b) 10 polls, 1 <= lo <= hi <= 3; (c) 4 polls; unwind 14",
+    outside="seed determinism; ranges containing 0; empty ranges; gaps for hi > 3 (covered inductively by (a))",
+    assumptions=["S-timer stub (contract of rand::Rng::random_range)", "rand/ChaCha12 trusted"],
+    harnesses=[
+        H("c34_one_poll", stubbing=True, encodes=["TimerDevice::poll_interrupt", "TimerDevice::reset_remaining", "TimerDevice::new", "TimerDevice::set_range", "SampleRange::new", "Interrupt::vectored", "Interrupt::priority"], bound="one poll, u32 full width"),
+        H("c34_gaps", stubbing=True, encodes=["TimerDevice::poll_interrupt", "TimerDevice::set_exact", "TimerDevice::io_reset"], bound="10 polls, 1<=lo<=hi<=3"),
+        H("c34_disabled", stubbing=True, encodes=["TimerDevice::poll_interrupt", "TimerDevice::io_read", "TimerDevice::io_write"], bound="4 polls"),
+    ],
+)
+PROPS["C33"] = dict(
+    level="model_checking", jobs=4,
+    claim="Device level, inductive: from an arbitrary queue/buffer (<= 2 bytes) one keyboard or display access, with the buffer lock REALLY held by the harness or not (symbolic), changes the buffer only by popping the front byte on an uncontended effectful KBDR read / appending the written byte on an uncontended DDR write, reports readiness only when the access would succeed now, never duplicates, reorders or invents bytes.",
+    note="Decides the device half of the property. The program-level statement (a polling program still gets every byte exactly once when the lock is taken BETWEEN the ready check and the data access) is not implied by it; see DESIGN.md section 5 (C33) for what is claimed.",
+    design_ref="DESIGN.md section 5 (C33)",
+    bounds="queue/buffer length <= 2 symbolic bytes; one access (KBSR/KBDR read, effectful or not, any write, poll); unwind 6",
+    outside="multi-instruction OS polling loops (GETC/OUT/PUTS) under contention; queues longer than 2 (VecDeque/Vec operations are length-uniform)",
+    assumptions=["Kani's sequential model of std::sync::RwLock atomics"],
+    harnesses=[
+        H("c33_keyboard_n0", bound="empty queue, one access", encodes=["BufferedKeyboard as ExternalDevice"]),
+        H("c33_keyboard_n1", bound="1 symbolic byte queued, one access", encodes=["BufferedKeyboard as ExternalDevice"]),
+        H("c33_keyboard_n2", encodes=["BufferedKeyboard as ExternalDevice", "DevWrapper<K, dyn KeyboardDevice>::{io_read,io_write,poll_interrupt}", "BufferedKeyboard::try_input", "RwLock::try_write"], bound="2 symbolic bytes queued, one access"),
+        H("c33_display_access", encodes=["BufferedDisplay as ExternalDevice", "DevWrapper<D, dyn DisplayDevice>::{io_read,io_write}", "BufferedDisplay::try_output"], bound="buffer <= 2 bytes, one access"),
+    ],
+)
+
+
+def _kfam(prefix, quick, thorough, **kw):
+    hs = [H(prefix + q, stubbing=True, kani_args=_K_ARGS, encodes=_K_ENC, heavy=True, timeout=1800, bound="one step_in, everything symbolic", **kw) for q in quick]
+    hs += [H(prefix + t, tier="thorough", stubbing=True, kani_args=_K_ARGS, encodes=_K_ENC, timeout=2400, bound="one step_in, class " + t, **kw) for t in thorough]
+    return hs
+
+_K_ASSUME = _K_STUBS + ["frame depth < 2^64-1", "interrupt vectors >= x03", "CBMC pointer checks off (--no-memory-safety-checks): memory safety of std's unsafe code is trusted"]
+
+PROPS["C09"] = dict(
+    level="model_checking", jobs=3,
+    claim="One step_in from an arbitrary USER-mode state with privilege checks on (virtual and real traps symbolic): a universally quantified witness address outside user space keeps its memory word and gets no observer entry, no device is reached from user mode, every attempted access outside x3000-xFDFF (fetch, LD/ST, LDI/STI pointer and target, LDR/STR) is reported as AccessViolation, RTI reports PrivilegeViolation without popping, and supervisor privilege is only gained through TRAP or (real traps) an exception vector, whose only non-user accesses are the two supervisor stack slots and one vector-table entry.",
+    note="Inductive (arbitrary pre-state). The observational assertions are independent of the ISA model's step logic; the model only supplies the list of addresses the instruction semantics touches. Stubs S-dev/S-obs/S-mem as in C08.",
+    design_ref="DESIGN.md section 3 (C09)",
+    bounds="one step; unwind 10; strict off; no pending interrupt in the class harnesses, symbolic in c09_all",
+    outside="the OS handler code that runs after TRAP/exception entry (supervisor mode by design)",
+    assumptions=_K_ASSUME,
+    harnesses=_kfam("c09_", ["all"], ["virt_mem", "virt_alu", "virt_sys", "real_mem", "real_alu", "real_sys", "iofetch"], cover_tags=["c09"]),
+)
+PROPS["C14"] = dict(
+    level="model_checking", jobs=3,
+    claim="One step_in with strict = true from an arbitrary state (incl. <= 2 alloca blocks): either it fails with a Strict* error, or result kind, registers, PC, PSR, saved SP, prefetch flag, instruction count, frame depth, every memory cell and the ordered device calls equal the NON-strict ISA model; and on a machine whose registers, saved SP and every touched memory cell are fully initialised no Strict* error is reported.",
+    note="The non-strict model is tied to the non-strict implementation by C08. Stubs as in C08.",
+    design_ref="DESIGN.md section 3 (C14)",
+    bounds="one step; unwind 10; alloca list of exactly 2 sorted disjoint blocks with symbolic bounds",
+    outside="observer contents under strict mode (the property lists registers, PC, PSR, memory, device effects, instruction counts)",
+    assumptions=_K_ASSUME,
+    harnesses=_kfam("c14_", ["same_all", "init_all"], ["same_alu", "same_mem", "same_sys", "same_irq", "init_alu", "init_mem", "init_sys", "init_irq"], cover_tags=["c14"]),
+)
+PROPS["C16"] = dict(
+    level="model_checking", jobs=3,
+    claim="One step_in followed by prefetch_pc() from an arbitrary machine state with EVERY flag symbolic (strict, real traps, ignore_privilege), 2 alloca blocks, any pending interrupt: none of the panics rustc and Kani encode (arithmetic overflow, slice/array bounds, unwrap/expect on None/Err, unreachable!, explicit panic!) is reachable, and the result is Ok or a SimErr. One inductive step covers any number of steps.",
+    note="Device internals are exercised with the same panic checks in C32-C34; here the hub is S-dev. Frame depth 2^64-1 (needs 2^64 executed calls) is assumed away.",
+    design_ref="DESIGN.md section 3 (C16)",
+    bounds="one step + prefetch_pc; unwind 10",
+    outside="panics inside device implementations (C32-C34), debug_frames = true (C27 thorough)",
+    assumptions=_K_ASSUME,
+    harnesses=_kfam("c16_", ["any_all"], ["any_alu", "any_mem", "any_sys", "any_irq", "any_iofetch"]),
+)
+PROPS["C27"] = dict(
+    level="model_checking", jobs=3,
+    claim="(a) one step_in from an arbitrary state and arbitrary frame depth (incl. 0): FrameStack::len() is old+1 after JSR/JSRR/TRAP/interrupt entry/real-trap exception entry, saturating old-1 after JMP R7 and RTI, unchanged otherwise (also on every error path).",
+    note="Depth only in the quick tier; debug-frame contents are thorough-tier harnesses. Stubs as in C08.",
+    design_ref="DESIGN.md section 3 (C27)",
+    bounds="one step; unwind 10; debug_frames = false (quick)",
+    outside="frame list contents with debug_frames (thorough), built-in trap signatures",
+    assumptions=_K_ASSUME,
+    harnesses=_kfam("c27_", ["depth_all"], ["depth_alu", "depth_sys", "depth_irq", "depth_mem"], cover_tags=["depth"]),
+)
+PROPS["C28"] = dict(
+    level="model_checking", jobs=3,
+    claim="(a) one step_in from an arbitrary state: for a universally quantified non-I/O address the access set recorded through AccessObserver::update_mem_accesses equals the model's (READ for fetch, data reads, LDI/STI pointers, vector entries, RTI pops; WRITTEN for stores/pushes; MODIFIED iff the stored word differs; nothing else).",
+    note="S-obs replaces the BTreeMap behind the observer by a log; the container itself and untracked contexts are separate harnesses (thorough).",
+    design_ref="DESIGN.md section 3 (C28)",
+    bounds="one step; unwind 10; non-strict",
+    outside="I/O addresses (the property speaks of non-I/O addresses); run-level accumulation over many steps",
+    assumptions=_K_ASSUME,
+    harnesses=_kfam("c28_", ["obs_all"], ["obs_mem", "obs_sys", "obs_alu", "obs_irq"], cover_tags=["obs"]),
+)
+
+PROPS["C32"] = dict(
+    level="model_checking", jobs=4,
+    claim="(a) For 7 operation histories of fixed shape and fully symbolic arguments over add_device(2 symbolic ports), remove_device(symbolic id), set_keyboard, set_display, io_read, io_write on a fresh DeviceHandler, each followed by a probe at an arbitrary address: add_device succeeds exactly when all ports are I/O addresses owned by no device, ids strictly increase and are never reused, removal frees non-fixed ports and keeps keyboard/display ports reserved, and every read/write reaches exactly the device that owns the port (with the right arguments) or nothing.",
+    note="Recording devices with distinct tags; port-ownership model in kani/src/c32.rs. Concrete history shapes (the heap shape of the device vector), symbolic ports/ids/addresses/data. Precedence of internal-register mappings over devices (mmap_internal) is not yet covered.",
+    design_ref="DESIGN.md section 5 (C32)",
+    bounds="histories: add+write, add+add, add+remove+add, set_keyboard+remove+add, set_display+write, set_keyboard+set_display+read, add+add+remove+add (thorough); 2 ports per added device; unwind 514 (remove_device sweeps the 512-entry port table)",
+    outside="other history shapes and longer histories; more than 2 ports per device; > 65535 devices; mmap_internal precedence",
+    assumptions=["Kani/CBMC/CaDiCaL"],
+    harnesses=[H("c32_" + n, tier=t, stubbing=True, encodes=["DeviceHandler::{new,add_device,remove_device,set_keyboard,set_display,get_dev_id,set_port}", "<DeviceHandler as ExternalDevice>::{io_read,io_write}", "SimDevice dispatch"], bound="history " + n + " + probe", timeout=1500)
+               for n, t in [("add_rw", "quick"), ("add_add", "quick"), ("add_remove_add", "quick"), ("kb_remove_add", "quick"), ("ds_write", "quick"), ("kb_ds_read", "quick"), ("add_add_remove_add", "thorough")]],
+)
